@@ -34,6 +34,18 @@ class ContainerAdapter(Hist1DAdapter):
                 v2 = vals.reshape(1, -1) if len(vals) else vals
                 w2 = None if w is None else (np.asarray(w).reshape(1, -1) if len(vals) else np.asarray(w))
                 real = self.physt.h1(v2, bins, weights=w2, **kw)
+            elif container in ("ndarray2d.F", "ndarray2d.T"):
+                # same entries, not C-contiguous in memory; without NaN also through the dropna=False path
+                if container == "ndarray2d.F":
+                    v2 = np.asfortranarray(vals.reshape(2, -1))
+                    w2 = None if w is None else np.asarray(w).reshape(2, -1)
+                else:
+                    v2 = vals.reshape(-1, 2).T
+                    w2 = None if w is None else np.ascontiguousarray(np.asarray(w).reshape(-1, 2).T)
+                assert not v2.flags["C_CONTIGUOUS"]
+                if not np.isnan(vals).any():
+                    kw["dropna"] = False
+                real = self.physt.h1(v2, bins, weights=w2, **kw)
             elif container == "pd.Series":
                 s = pd.Series(vals, name="col")
                 real = self.physt.h1(s, bins, weights=None if w is None else pd.Series(np.asarray(w)), **kw)
